@@ -107,13 +107,13 @@ def stream_letters(seq):
   L = []
   for n in (None, -1, 0, 1, 2, 2.4, 2.6, 5):
     L.append(("take", n))
-  for n in (None, 0, 1, 2, 2.6, 5):
+  for n in (None, -1, 0, 1, 2, 2.6, 5):
     L.append(("peek", n))
   if seq.finite:
     L += [("take", "inf"), ("peek", "inf"), ("list",)]
-  for n in (0, 1, 2, 5, 1.6):
+  for n in (-2, 0, 1, 2, 5, 1.6):
     L.append(("skip", n))
-  for n in (0, 1, 2, 5, 1.6):
+  for n in (-1, 0, 1, 2, 5, 1.6):
     L.append(("limit", n))
   L += [("append1",), ("appendp",), ("map",), ("copy",), ("tee", 2), ("tee", 3),
         ("iternext",)]
